@@ -32,9 +32,15 @@ LEAN_MODULES = ["PySMT.Props.C08"]
 RULE = ("independently generated SMT-LIB scripts (nested/parallel/shadowing let, binders reusing declared and defined "
         "names, chainable =/<, n-ary -, distinct, numerals vs decimals under LIA/LRA/LIRA/no logic, #x/#b/(_ bvN w), all "
         "indexed operators, define-fun with parameters, define-sort, comments, |quoted| names, annotations, push/pop "
-        "around declarations) with generator-built intended meanings; a case is non-trivial when the script contains "
-        "at least one term-carrying command (assert/define-fun/get-value/check-sat-assuming) that is not a bare "
-        "literal; distinct = distinct script texts.  Malformed stream: one seeded defect per script.")
+        "around declarations, (as x sort)) with generator-built intended meanings; a dedicated stream of simultaneous lets "
+        "(2-3 bindings all rebinding names with an outer meaning -- declared, defined, let-, quantifier- or parameter-bound "
+        "--: swaps, rotations, later bindings mentioning earlier-rebound names; at the top, nested, in quantifiers and "
+        "definitions); a dedicated stream of the 3-4 argument forms of every :chainable/:left-assoc/:right-assoc/:pairwise "
+        "operator with the standard's expansion as meaning (accepted => same meaning, else rejected); a case is non-trivial "
+        "when the script contains at least one term-carrying command (assert/define-fun/get-value/check-sat-assuming) "
+        "that is not a bare literal; distinct = distinct script texts.  Malformed stream: one seeded defect per script; "
+        "undeclared-name stream: one undeclared name (bare or under ! annotations) in a String/Int/Bool/Real/BV/Array "
+        "position of every term-carrying command, with the declared-name control.")
 ASSUMPTIONS = [
     "arrays: finitely supported interpretations only; reals are rationals",
     "interpretations under which a division by zero is evaluated are skipped",
@@ -393,6 +399,10 @@ class ScriptGen:
             e = scope[n]
             if e.kind == "def":
                 self.tags.add("use-define-fun-0")
+            if e.kind == "sym" and self.scope.get(n) is e and r.random() < 0.04:
+                # qualified identifier of a declared constant that no binder shadows here
+                self.tags.add("as-qualified")
+                return ["as", self.symtok(n), self.sort_sx(t)], self.name_den(n, e)
             return self.symtok(n), self.name_den(n, e)
         sx, d = self.lit(t)
         if sx is None:
@@ -458,7 +468,7 @@ class ScriptGen:
         self.tags.add("annotation")
         return ["!", a] + attrs, da
 
-    def gen_let(self, t, depth, scope):
+    def gen_let(self, t, depth, scope, body_fn=None):
         r = self.rng
         nb = r.choice([1, 1, 2, 2, 3])
         names, binds, new = [], [], dict(scope)
@@ -475,11 +485,11 @@ class ScriptGen:
             self.tags.add("let-parallel")
         if any(n in scope for n in names):
             self.tags.add("let-shadowing")
-        body, db = self.gen(t, depth - 1, new)
+        body, db = body_fn(new) if body_fn else self.gen(t, depth - 1, new)
         self.tags.add("let")
         return ["let", binds, body], db
 
-    def gen_quant(self, depth, scope):
+    def gen_quant(self, depth, scope, body_fn=None):
         r, m = self.rng, self.m
         nb = r.choice([1, 1, 2, 3])
         names, vs, new = [], [], dict(scope)
@@ -494,9 +504,9 @@ class ScriptGen:
             vs.append(s)
             binders.append([self.symtok(n), self.sort_sx(bt)])
             new[n] = Entry("sym", bt, s)
-        body, db = self.gen(B, depth - 1, new)
+        body, db = body_fn(new) if body_fn else self.gen(B, depth - 1, new)
         # make a bound variable occur
-        if r.random() < 0.7:
+        if not body_fn and r.random() < 0.7:
             n = r.choice(names)
             e = new[n]
             if e.ty == B:
@@ -515,6 +525,171 @@ class ScriptGen:
             self.tags.add("binder-repeated")
         Q = m.ForAll if q == "forall" else m.Exists
         return [q, binders, body], (lambda pe: Q(vs, db(pe)))
+
+    # ------------------------------------------------------------------ simultaneous let (dedicated stream)
+    def ap(self, o, *args):
+        """application of a theory operator to generated (sexp, den) pairs; denotation from primitive constructors"""
+        m = self.m
+        F = {
+            "not": m.Not, "and": lambda *a: m.And(list(a)), "or": lambda *a: m.Or(list(a)), "=>": m.Implies,
+            "xor": lambda x, y: m.Not(m.Iff(x, y)), "iff": m.Iff, "eq": m.Equals, "ite": m.Ite,
+            "+": lambda *a: m.Plus(list(a)), "-": m.Minus, "*": lambda *a: m.Times(list(a)),
+            "<": m.LT, "<=": m.LE, ">": lambda x, y: m.LT(y, x), ">=": lambda x, y: m.LE(y, x),
+            "bvnot": m.BVNot, "bvneg": m.BVNeg, "bvadd": m.BVAdd, "bvsub": m.BVSub, "bvxor": m.BVXor, "bvand": m.BVAnd,
+            "bvult": m.BVULT, "bvule": m.BVULE, "bvslt": m.BVSLT,
+        }[o]
+        tok = {"iff": "=", "eq": "="}.get(o, o)
+        return [tok] + [a[0] for a in args], (lambda pe, args=args, F=F: F(*[a[1](pe) for a in args]))
+
+    def around(self, n, depth, scope):
+        """a term of `scope` that mentions the name n -> (sexp, den, type)"""
+        r = self.rng
+        e = scope[n]
+        ty = e.ty
+        base = (self.symtok(n), self.name_den(n, e))
+        if depth <= 0 or r.random() < 0.3:
+            return base[0], base[1], ty
+        d = max(depth - 1, 0)
+        other = lambda: self.gen(ty, d, scope)
+        if ty == B:
+            o = r.choice(["not", "and", "or", "=>", "=>r", "xor", "ite"])
+            if o == "not":
+                sx, dn = self.ap("not", base)
+            elif o == "=>r":
+                sx, dn = self.ap("=>", other(), base)
+            elif o == "ite":
+                sx, dn = self.ap("ite", base, other(), other())
+            else:
+                sx, dn = self.ap(o, base, other())
+            return sx, dn, B
+        if is_num(ty):
+            o = r.choice(["+", "-", "-r", "*", "<", "<=", ">", ">=", "ite"])
+            if o in ("<", "<=", ">", ">="):
+                sx, dn = self.ap(o, base, other())
+                return sx, dn, B
+            if o == "*":
+                sx, dn = self.ap("*", self.lit(ty), base)
+            elif o == "-r":
+                sx, dn = self.ap("-", other(), base)
+            elif o == "ite":
+                sx, dn = self.ap("ite", self.gen(B, d, scope), base, other())
+            else:
+                sx, dn = self.ap(o, base, other())
+            return sx, dn, ty
+        if ty[0] == "V":
+            o = r.choice(["bvnot", "bvneg", "bvadd", "bvsub", "bvxor", "bvult", "bvslt", "ite"])
+            if o in ("bvult", "bvslt"):
+                sx, dn = self.ap(o, base, other())
+                return sx, dn, B
+            if o in ("bvnot", "bvneg"):
+                sx, dn = self.ap(o, base)
+            elif o == "ite":
+                sx, dn = self.ap("ite", self.gen(B, d, scope), other(), base)
+            else:
+                sx, dn = self.ap(o, base, other())
+            return sx, dn, ty
+        if r.random() < 0.5:
+            sx, dn = self.ap("eq", base, other())
+            return sx, dn, B
+        sx, dn = self.ap("ite", self.gen(B, d, scope), base, other())
+        return sx, dn, ty
+
+    def outer_kind(self, n, scope):
+        e = scope[n]
+        if e.kind == "sym" and self.scope.get(n) is not e:
+            return "qvar"
+        return e.kind
+
+    def gen_simlet(self, t, depth, scope):
+        """a let with 2-3 bindings ALL of which rebind names that already mean something (declared symbol, 0-ary definition,
+        variable of an enclosing let / quantifier / definition), whose binding terms mention names rebound by the same let:
+        swap, rotation, a later binding using an earlier-rebound name.  The bindings of an SMT-LIB let are simultaneous: every
+        binding term is read in the scope OUTSIDE the let -- that is how the denotations are built here."""
+        r = self.rng
+        vals = [n for n, e in scope.items() if e.kind in ("sym", "let", "param") or (e.kind == "def" and not e.data[0])]
+        if len(vals) < 2:
+            return self.gen_let(t, depth, scope)
+        # prefer names introduced by enclosing binders
+        inner = [n for n in vals if self.outer_kind(n, scope) in ("let", "param", "qvar")]
+        nb = min(len(vals), r.choice([2, 2, 2, 3, 3]))
+        names = []
+        if inner and r.random() < 0.8:
+            names.append(r.choice(inner))
+        while len(names) < nb:
+            n = r.choice(vals)
+            if n not in names:
+                names.append(n)
+        r.shuffle(names)
+        shape = r.choice(["swap", "swap", "uses-earlier", "uses-earlier", "uses-earlier", "mixed"])
+        if shape == "swap" and nb == 3:
+            shape = "rotate"
+        binds, new = [], dict(scope)
+        for i, n in enumerate(names):
+            if shape in ("swap", "rotate"):
+                ref = names[(i + 1) % nb]
+                bare = r.random() < 0.75
+            elif shape == "uses-earlier":
+                ref = names[r.randrange(i)] if i else names[0]
+                bare = r.random() < 0.3
+            else:
+                ref = r.choice(names)
+                bare = r.random() < 0.4
+            if bare:
+                sx, d, bt = self.symtok(ref), self.name_den(ref, scope[ref]), scope[ref].ty
+            else:
+                sx, d, bt = self.around(ref, depth - 1, scope)
+            binds.append([self.symtok(n), sx])
+            new[n] = Entry("let", bt, d)
+            self.tags.add("simlet-rebinds-%s" % self.outer_kind(n, scope))
+        self.tags.add("simlet-%s-%d" % (shape, nb))
+        self.tags.add("let")
+        self.tags.add("let-parallel")
+        self.tags.add("let-shadowing")
+        # the body mentions every rebound name (with its new meaning)
+        atoms = []
+        for n in names:
+            sx, d, ty = self.around(n, depth - 1, new)
+            if ty != B:
+                o2 = self.gen(ty, max(depth - 2, 0), new)
+                if is_num(ty) and r.random() < 0.6:
+                    sx, d = self.ap(r.choice(["<", "<=", ">", ">="]), (sx, d), o2)
+                else:
+                    sx, d = self.ap("eq", (sx, d), o2)
+            atoms.append((sx, d))
+        # an asymmetric relation between two rebound names of one sort
+        done = False
+        for i in range(nb):
+            for j in range(i + 1, nb):
+                ti = new[names[i]].ty
+                if ti == new[names[j]].ty and not done and (is_num(ti) or ti == B or ti[0] == "V"):
+                    li = (self.symtok(names[i]), self.name_den(names[i], new[names[i]]))
+                    lj = (self.symtok(names[j]), self.name_den(names[j], new[names[j]]))
+                    atoms.append(self.ap("<" if is_num(ti) else ("=>" if ti == B else "bvult"), li, lj))
+                    done = True
+        k = r.random()
+        if len(atoms) == 1:
+            cond = atoms[0]
+        elif k < 0.25:
+            cond = self.ap("and", *atoms)
+        elif k < 0.4:
+            cond = self.ap("or", *atoms)
+        else:
+            cond = atoms[-1]
+            for a in reversed(atoms[:-1]):
+                cond = self.ap(r.choice(["xor", "iff"]), a, cond)
+        if t == B:
+            if r.random() < 0.3:
+                cond = self.ap(r.choice(["=>", "xor", "and"]), cond, self.gen(B, depth - 1, new))
+            return ["let", binds, cond[0]], cond[1]
+        same = [n for n in names if new[n].ty == t]
+        if same:
+            n = r.choice(same)
+            b1 = (self.symtok(n), self.name_den(n, new[n]))
+        else:
+            b1 = self.gen(t, depth - 1, new)
+        b2 = self.gen(t, depth - 1, new)
+        body = self.ap("ite", cond, b1, b2) if r.random() < 0.5 else self.ap("ite", cond, b2, b1)
+        return ["let", binds, body[0]], body[1]
 
     def gen_call(self, t, depth, scope):
         """application of a declared or defined function returning t"""
@@ -812,6 +987,10 @@ class ScriptGen:
         if w == 4 and "arr" in self.theories:
             ch += ["select"]
         k = r.choice(ch)
+        if k == "smod" and getattr(self, "_in_smod", 0):
+            # the intended meaning of bvsmod is its standard abbreviation, which mentions each operand half a dozen times:
+            # nested in its own operands the (tree-shaped) terms of the semantic oracle grow as 6^depth
+            k = "bin"
         if k == "un":
             a, da = G(w)
             o = r.choice(["bvnot", "bvneg"])
@@ -851,8 +1030,12 @@ class ScriptGen:
             self.tags.add(o)
             return [o, a, b], (lambda pe: F(da(pe), db(pe)))
         if k == "smod":
-            a, da = G(w)
-            b, db = G(w)
+            self._in_smod = getattr(self, "_in_smod", 0) + 1
+            try:
+                a, da = G(w)
+                b, db = G(w)
+            finally:
+                self._in_smod -= 1
             self.tags.add("bvsmod")
             return ["bvsmod", a, b], (lambda pe: self.smod(da(pe), db(pe), w))
         if k == "ext":
@@ -974,7 +1157,7 @@ class ScriptGen:
         self.tags.add("define-sort")
         self.cmds.append((["define-sort", n, [], sx], ("define-sort", n)))
 
-    def define_fun(self):
+    def define_fun(self, body_fn=None):
         r = self.rng
         n = self.fresh_name(self.scope)
         t = r.choice([x for x in self.value_types()])
@@ -991,7 +1174,7 @@ class ScriptGen:
             psx.append([self.symtok(pn), self.sort_sx(pt)])
         self._params_now = params
         ntags = set(self.tags)
-        body, db = self.gen(t, r.choice([1, 2, 3]), new)
+        body, db = body_fn(t, new) if body_fn else self.gen(t, r.choice([1, 2, 3]), new)
         self._params_now = []
         bound = set(_bound_names(body))
         self.scope[n] = Entry("def", t, (params, db, bound))
@@ -1048,6 +1231,225 @@ class ScriptGen:
                 self.cmds.append((["load-objective-model", "1"], ("plain", k)))
             elif k == "get-objectives":
                 self.cmds.append((["get-objectives"], ("plain", k)))
+            last = self.cmds[-1][0]
+            if last[0] in ("minmax", "maxmin") and \
+                    any(isinstance(x, str) and x.startswith("|:") for x in last[1:]):
+                # a bare quoted symbol such as |:k| in the term list of minmax/maxmin is taken for an option keyword (the
+                # tokenizer drops the bars: known P03 of C09) -- rejected with an error, never misread (when the parser accepts
+                # such a script its terms are compared as always)
+                self.may_reject.add("omt-argument-spelling-a-keyword")
+
+    # ------------------------------------------------------------------ dedicated scripts
+    def configure(self, theories, quant):
+        self.theories = set(theories) | {"bool"}
+        self.quant = quant
+        self.logic = self._pick_logic()
+        self.numeral_is_real = self.logic in ("QF_LRA", "LRA", "QF_UFLRA")
+
+    def declare_const(self, t):
+        n = self.fresh_name(self.scope)
+        if self.global_types.setdefault(n, t) != t:
+            self.may_reject.add("name-redeclared-with-other-sort")
+        self.scope[n] = Entry("sym", t, self.msym(n, t))
+        if self.rng.random() < 0.3:
+            self.cmds.append((["declare-const", self.symtok(n), self.sort_sx(t)], ("declare", n, t, [])))
+        else:
+            self.cmds.append((["declare-fun", self.symtok(n), [], self.sort_sx(t)], ("declare", n, t, [])))
+        return n
+
+    def prelude(self):
+        if self.logic is not None:
+            self.cmds.append((["set-logic", self.logic], ("set-logic", self.logic)))
+        if "uf" in self.theories:
+            self.declare_sort()
+
+    def build_simlet_script(self):
+        """declarations, then commands whose terms are simultaneous-let shapes: at the top, inside an enclosing let, inside a
+        quantifier, under operators, in the body of a definition with parameters"""
+        r = self.rng
+        self.configure(r.choice([("int",), ("int",), ("real",), ("bv",), ("int", "real"), ("int", "uf"), ("int", "bv")]), True)
+        self.prelude()
+        tys = [t for t in self.value_types() if t != B]
+        main = r.choice(tys)
+        for t in [B, B, main, main] + [r.choice(tys + [B]) for _ in range(r.randint(0, 3))]:
+            self.declare_const(t)
+        if r.random() < 0.4:
+            # a 0-ary definition: a name with a meaning that a let may rebind
+            n = self.fresh_name(self.scope)
+            t = r.choice([B, main])
+            body, db = self.gen(t, 1, self.scope)
+            self.scope[n] = Entry("def", t, ([], db, set(_bound_names(body))))
+            self.tags.add("define-fun-0")
+            self.cmds.append((["define-fun", self.symtok(n), [], self.sort_sx(t), body], ("define-fun", n, [], t, db)))
+        for _ in range(r.randint(2, 4)):
+            d = r.choice([2, 2, 3])
+            k = r.random()
+            sim = lambda sc, d=d: self.gen_simlet(B, d, sc)
+            if k < 0.30:
+                body, db = sim(self.scope)
+            elif k < 0.45:
+                body, db = self.gen_let(B, d, self.scope, body_fn=sim)
+                self.tags.add("simlet-in-let")
+            elif k < 0.60:
+                body, db = self.gen_quant(d, self.scope, body_fn=sim)
+                self.tags.add("simlet-in-quantifier")
+            elif k < 0.68:
+                body, db = self.gen_quant(d, self.scope, body_fn=lambda sc: self.gen_let(B, d, sc, body_fn=sim))
+                self.tags.add("simlet-in-let-in-quantifier")
+            elif k < 0.76:
+                body, db = self.gen_simlet(B, d, self.scope)
+                o = r.choice(["not", "and", "=>"])
+                body, db = self.ap(o, (body, db)) if o == "not" else self.ap(o, self.gen(B, 1, self.scope), (body, db))
+                self.tags.add("simlet-under-operator")
+            elif k < 0.84:
+                t = r.choice(tys)
+                a = self.gen_simlet(t, d, self.scope)
+                body, db = self.ap("eq", a, self.gen(t, 1, self.scope))
+                self.tags.add("simlet-non-bool")
+            else:
+                self.define_fun(body_fn=lambda t, sc, d=d: self.gen_simlet(t, d, sc))
+                self.tags.add("simlet-in-define-fun")
+                continue
+            self.cmds.append((["assert", body], ("assert", db)))
+        if r.random() < 0.5:
+            self.cmds.append((["check-sat"], ("plain", "check-sat")))
+        return self
+
+    # operators with more arguments than two: (token, needed theory, what the STANDARD says, accepted by the parser today)
+    NARY = [("=>", None, "right-assoc", False), ("=>", None, "right-assoc", False), ("xor", None, "left-assoc", False),
+            ("=", "any", "chainable", False), ("=", "any", "chainable", False), ("distinct", "any", "pairwise", True),
+            ("<", "num", "chainable", False), ("<=", "num", "chainable", False), (">", "num", "chainable", False),
+            (">=", "num", "chainable", False), ("-", "num", "left-assoc", False), ("/", "real", "left-assoc", False),
+            ("+", "num", "left-assoc", True), ("*", "num", "left-assoc", True), ("and", None, "left-assoc", True),
+            ("or", None, "left-assoc", True), ("div", "int", "left-assoc", False),
+            ("bvand", "bv", "left-assoc", True), ("bvor", "bv", "left-assoc", True), ("bvxor", "bv", "left-assoc", False),
+            ("bvadd", "bv", "left-assoc", True), ("bvmul", "bv", "left-assoc", True), ("concat", "bv", "assoc", True),
+            ("str.++", "str", "left-assoc", True)]
+
+    def build_nary_script(self):
+        """one operator applied to 3-4 arguments (the forms the standard derives from :chainable, :left-assoc, :right-assoc and
+        :pairwise), intended meaning = the standard's expansion.  Forms the parser does not handle today may be rejected."""
+        r, m = self.rng, self.m
+        o, need, attr, accepted = r.choice(self.NARY)
+        th = {"num": r.choice([("int",), ("real",), ("int", "real")]), "real": r.choice([("real",), ("int", "real")]),
+              "int": ("int",), "bv": r.choice([("bv",), ("bv", "int")]), "str": ("int", "str"), None: r.choice([(), ("int",), ("bv",)]),
+              "any": r.choice([("int",), ("real",), ("bv",), ("int", "uf"), ("int", "str"), ("int", "arr")])}[need]
+        self.configure(th, r.random() < 0.3)
+        self.prelude()
+        vts = [t for t in self.value_types()]
+        if need is None:
+            ty = B
+        elif need == "any":
+            ty = r.choice(vts)
+        elif need in ("num", "real", "int"):
+            ty = r.choice([t for t in vts if is_num(t) and (need == "num" or (need == "real") == (t == R))])
+        elif need == "bv":
+            ty = V(r.choice([1, 2, 4, 8]) if o != "concat" else 4)
+        else:
+            ty = S
+        n = r.choice([3, 3, 4]) if o != "concat" else 3
+        if o == "concat":
+            ws = r.choice([(2, 1, 1), (1, 2, 1), (1, 1, 2), (4, 2, 2), (2, 2, 4), (2, 4, 2), (1, 1, 1 + 1)])
+            atys, rty = [V(w) for w in ws], V(sum(ws))
+        else:
+            atys = [ty] * n
+            rty = B if attr in ("chainable", "pairwise", "right-assoc") or o in ("xor", "and", "or") else ty
+        for t in [B, B] + atys + [rty]:
+            self.declare_const(t)
+        args = []
+        used = set()
+        for i, t in enumerate(atys):
+            k = r.random()
+            cands = [nm for nm, e in self.scope.items() if e.kind == "sym" and e.ty == t and nm not in used]
+            if o == "div" and i > 0:
+                c = r.choice([1, 2, 3, 7])
+                args.append((str(c), (lambda pe, c=c: m.Int(c))))
+            elif cands and k < 0.75:
+                nm = r.choice(cands)
+                used.add(nm)
+                args.append((self.symtok(nm), self.name_den(nm, self.scope[nm])))
+            elif o == "/" and i > 0:
+                c = r.choice(["2.0", "3.0", "0.5", "10.0"])
+                args.append((c, (lambda pe, c=c: m.Real(Fraction(c)))))
+            elif k < 0.85 and t[0] != "U":
+                args.append(self.lit(t))
+            else:
+                args.append(self.gen(t, r.choice([1, 2]), self.scope))
+        eq = (lambda x, y: m.Iff(x, y)) if ty == B else (lambda x, y: m.Equals(x, y))
+        BIN = {"=>": m.Implies, "xor": lambda x, y: m.Not(m.Iff(x, y)), "-": m.Minus, "/": m.Div, "div": m.Div,
+               "+": lambda x, y: m.Plus([x, y]), "*": lambda x, y: m.Times([x, y]), "and": lambda x, y: m.And([x, y]),
+               "or": lambda x, y: m.Or([x, y]), "bvand": m.BVAnd, "bvor": m.BVOr, "bvxor": m.BVXor, "bvadd": m.BVAdd,
+               "bvmul": m.BVMul, "concat": m.BVConcat, "str.++": lambda x, y: m.StrConcat([x, y]),
+               "=": eq, "distinct": lambda x, y: m.Not(eq(x, y)),
+               "<": m.LT, "<=": m.LE, ">": lambda x, y: m.LT(y, x), ">=": lambda x, y: m.LE(y, x)}[o]
+
+        def den(pe, args=args, attr=attr, BIN=BIN):
+            vs = [a[1](pe) for a in args]
+            if attr == "right-assoc":
+                res = vs[-1]
+                for v in reversed(vs[:-1]):
+                    res = BIN(v, res)
+                return res
+            if attr in ("left-assoc", "assoc"):
+                res = vs[0]
+                for v in vs[1:]:
+                    res = BIN(res, v)
+                return res
+            if attr == "chainable":
+                return m.And([BIN(vs[i], vs[i + 1]) for i in range(len(vs) - 1)])
+            return m.And([BIN(vs[i], vs[j]) for i in range(len(vs)) for j in range(i + 1, len(vs))])
+        term = ([o] + [a[0] for a in args], den)
+        tag = {"chainable": "chain-", "pairwise": "", "assoc": "nary-"}.get(attr, "nary-") + o
+        self.tags.add("nary:%s-%d" % (o, len(args)))
+        if not accepted:
+            self.may_reject.add(tag)
+            if o == "div":
+                self.may_reject.add("int-div")
+        if o == "concat":
+            self.nonstd = True                       # concat is binary by the letter of the standard
+        if rty != B:
+            cands = [nm for nm, e in self.scope.items() if e.kind == "sym" and e.ty == rty and nm not in used]
+            if cands and r.random() < 0.8:
+                nm = r.choice(cands)
+                oth = (self.symtok(nm), self.name_den(nm, self.scope[nm]))
+            else:
+                oth = self.gen(rty, 1, self.scope)
+            rel = "eq" if not is_num(rty) or r.random() < 0.5 else r.choice(["<", "<=", ">"])
+            term = self.ap(rel, term, oth) if r.random() < 0.5 else self.ap(rel, oth, term)
+        # position of the form in the command argument
+        k = r.random()
+        bl = lambda: self.leaf(B, self.scope)
+        if k < 0.4:
+            pass
+        elif k < 0.52:
+            term = self.ap("not", term)
+        elif k < 0.62:
+            term = self.ap("and", bl(), term)
+        elif k < 0.70:
+            term = self.ap("or", term, bl())
+        elif k < 0.78:
+            term = self.ap("=>", term, bl())
+        elif k < 0.86:
+            term = self.ap("ite", bl(), term, bl())
+        elif k < 0.93:
+            l = self.fresh_name(self.scope)
+            d0 = term[1]
+            inner = self.ap("=>", (self.symtok(l), d0), bl())
+            term = (["let", [[self.symtok(l), term[0]]], inner[0]], inner[1])
+        else:
+            # (empty scope: the binders take fresh names, the form keeps referring to the declared symbols)
+            term = self.gen_quant(1, {}, body_fn=lambda sc, term=term: term)
+        k = r.random()
+        if k < 0.8:
+            self.cmds.append((["assert", term[0]], ("assert", term[1])))
+        elif k < 0.9:
+            self.cmds.append((["get-value", [term[0]]], ("terms", "get-value", [term[1]])))
+        else:
+            nm = self.fresh_name(self.scope)
+            self.cmds.append((["define-fun", self.symtok(nm), [], "Bool", term[0]], ("define-fun", nm, [], B, term[1])))
+        if r.random() < 0.4:
+            self.assert_(2)
+        return self
 
     def build(self):
         r = self.rng
@@ -1256,7 +1658,19 @@ def malform(rng, gen):
     elif k == "arity":
         c = [["not", bt, bt], ["ite", bt, bt], ["not"], ["ite", bt, bt, bt, bt], ["=", bt],
              ["=", ["bvnot", "#b01", "#b01"], "#b01"], ["=", ["bvneg"], "#b01"],
-             ["=", [["_", "extract", "1"], "#b0101"], "#b01"], ["=", ["select", "1"], "1"]]
+             ["=", [["_", "extract", "1"], "#b0101"], "#b01"], ["=", ["select", "1"], "1"],
+             # operators that are not :left-assoc / :chainable in the standard, applied to three arguments
+             ["=", ["bvsub", "#b01", "#b01", "#b01"], "#b01"], ["bvult", "#b01", "#b01", "#b01"],
+             ["bvsle", "#b01", "#b01", "#b01"], ["=", ["bvudiv", "#b01", "#b01", "#b01"], "#b01"],
+             ["=", ["bvurem", "#b01", "#b01", "#b01"], "#b01"], ["=", ["bvshl", "#b01", "#b01", "#b01"], "#b01"],
+             ["=", ["bvlshr", "#b01", "#b01", "#b01"], "#b01"], ["=", ["bvcomp", "#b01", "#b01", "#b01"], "#b1"],
+             ["=", ["bvnand", "#b01", "#b01", "#b01"], "#b01"], ["=", ["bvneg", "#b01", "#b01"], "#b01"],
+             ["=", ["to_real", "1", "2"], "1.0"], ["=", ["str.len", '"a"', '"b"'], "1"],
+             ["=", ["select", [["as", "const", ["Array", "Int", "Int"]], "0"], "1", "2"], "0"],
+             ["=", ["store", [["as", "const", ["Array", "Int", "Int"]], "0"], "1", "2", "3"],
+              [["as", "const", ["Array", "Int", "Int"]], "0"]], ["ite", bt, bt, bt, bt, bt], ["=>", bt], ["xor", bt],
+             # ((distinct t), like (and t) and (+ t), is accepted with its degenerate meaning: not part of this stream)
+             ["<", "1"], [">=", "1"]]
         fs = [(n, e) for n, e in gen.scope.items() if e.kind == "fun"]
         if fs:
             n, e = r.choice(fs)
@@ -1561,6 +1975,8 @@ def run_std_oracle(ctx):
             if ci >= len(items) or ai >= len(items[ci]):
                 ctx.infra("readstd answer does not align with the script at %s" % what)
                 continue
+            if _tree_size(got) > MAX_TREE:
+                continue
             try:
                 interps = ig.sample([got], n=4)
                 parts = ["chk_equiv_nofv", str(len(interps))]
@@ -1590,10 +2006,10 @@ def run_std_oracle(ctx):
                      "returned %s" % (rep["command"], ans[:80], rep["returned"]), dict(rep, request=line, answer=ans))
 
 
-def gen_script(rng, profile="std"):
+def gen_script(rng, profile="std", kind="build"):
     for _ in range(20):
         try:
-            g = ScriptGen(rng, profile).build()
+            g = getattr(ScriptGen(rng, profile), kind)()
         except Rejectable:
             continue
         return g
@@ -1774,8 +2190,30 @@ CORPUS_COUNTS = {'fuzzed/AUFLIA.smt2.bz2': 16,
 
 
 # ------------------------------------------------------------------------------------------
-def check_script(ctx, g, text, ig, lines, meta, stream):
-    """run the implementation on `text`; queue semantic comparisons"""
+MAX_TREE = 150000
+
+
+def _tree_size(f):
+    """number of nodes of the formula unfolded as a tree"""
+    memo = {}
+    stack = [(f, False)]
+    while stack:
+        n, done = stack.pop()
+        if id(n) in memo:
+            continue
+        if not done:
+            stack.append((n, True))
+            for c in n.args():
+                if id(c) not in memo:
+                    stack.append((c, False))
+        else:
+            memo[id(n)] = 1 + sum(memo[id(c)] for c in n.args())
+    return memo[id(f)]
+
+
+def check_script(ctx, g, text, ig, lines, meta, stream, std_always=False, n_interps=None):
+    """run the implementation on `text`; queue semantic comparisons.
+    std_always: consult the standard reader also when the script holds forms the parser may reject (it is accepted here)"""
     K_TEXTS.append((stream, text))
     res = run_impl(text)
     nontriv = text
@@ -1805,7 +2243,7 @@ def check_script(ctx, g, text, ig, lines, meta, stream):
         ctx.report_s({"oracle": "commands", "kind": "structure", "stream": stream},
                      "the command list returned for the script differs from the text: %s" % e, dict(rep, error=str(e)))
         return
-    if not (g.nonstd or g.sugar or g.may_reject):
+    if std_always or not (g.nonstd or g.sugar or g.may_reject):
         STD_QUEUE.append((text, [(what, got) for what, _, got in pairs if not what.startswith("define-fun")], rep, ig))
     for what, want, got in pairs:
         sig = {"oracle": "meaning", "stream": stream, "command": what.split("#")[0]}
@@ -1813,8 +2251,12 @@ def check_script(ctx, g, text, ig, lines, meta, stream):
             sig["shape"] = "define-fun-call-capture-prone"
         elif g.may_reject:
             sig["shape"] = "+".join(sorted(g.may_reject))
+        if max(_tree_size(want), _tree_size(got)) > MAX_TREE:
+            # the oracle evaluates terms as trees: a term whose unfolding is this large is not compared (counted)
+            ctx.count("sem_skipped_tree_too_large")
+            continue
         try:
-            interps = ig.sample([want, got], n=4 if ctx.tier == "quick" else 8)
+            interps = ig.sample([want, got], n=n_interps or (4 if ctx.tier == "quick" else 8))
             line = semantic.chk_equiv_line(want, got, interps, check_fv=True)
         except wire.OutOfFragment as e:
             ctx.count("out_of_fragment")
@@ -1862,6 +2304,206 @@ def run_malformed(ctx, n):
                          "malformed script (%s) accepted" % kind, {"text": text, "kind": kind})
 
 
+# ------------------------------------------------------------------------------------------
+# undeclared symbols in every syntactic position (all must be rejected)
+UNDECLARED_NAMES = ["mgs", "undeclared", "zz9", "x!", "True", "FALSE", "nil", "Msg", "cnt_", "flg", "no such", "msg ",
+                    "String", "Int", "Bool", "rat2", "vec'"]
+OWN_SYMBOL = {"S": "msg", "I": "cnt", "B": "flag", "R": "rat", "V": "vec", "A": "arr"}
+OWN_SORT = {"S": "String", "I": "Int", "B": "Bool", "R": "Real", "V": ["_", "BitVec", "4"], "A": ["Array", "Int", "Int"]}
+assert not (set(UNDECLARED_NAMES) | set(OWN_SYMBOL.values())) & (set(SIMPLE_NAMES) | set(QUOTED_NAMES))
+
+
+def _undeclared_contexts(T):
+    """Bool-valued terms with a hole of sort T: [(tag, builder)]"""
+    s, so, f, d = OWN_SYMBOL[T], OWN_SORT[T], "f" + T, "d" + T
+    c = [("eq-right", lambda H: ["=", s, H]), ("eq-left", lambda H: ["=", H, s]), ("distinct", lambda H: ["distinct", s, H]),
+         ("ite-branch", lambda H: ["=", s, ["ite", "flag", H, s]]),
+         ("uf-argument", lambda H: [f, H]), ("defined-fun-argument", lambda H: [d, H]),
+         ("let-bound-term", lambda H: ["let", [["l!", H]], ["=", "l!", s]]),
+         ("let-bound-term-second", lambda H: ["let", [["l!", s], ["k!", H]], ["=", "l!", "k!"]]),
+         ("let-body", lambda H: ["let", [["l!", s]], ["=", "l!", H]]),
+         ("quantifier-body", lambda H: ["forall", [["q!", "Int"]], ["=", s, H]]),
+         ("quantifier-body-2", lambda H: ["exists", [["q!", so], ["q2!", "Bool"]], ["or", "q2!", ["=", "q!", H]]]),
+         ("nested", lambda H: ["not", ["and", "flag", ["or", ["=", s, H], "flag"]]])]
+    if T == "S":
+        c += [("str.len", lambda H: ["=", "cnt", ["str.len", H]]), ("str.++", lambda H: ["=", "msg", ["str.++", "msg", H]]),
+              ("str.prefixof", lambda H: ["str.prefixof", H, "msg"]), ("str.++-first", lambda H: ["=", ["str.++", H, "msg"], "msg"])]
+    elif T == "I":
+        c += [("<", lambda H: ["<", "cnt", H]), ("+", lambda H: ["=", "cnt", ["+", "cnt", H]]),
+              ("unary-minus", lambda H: ["=", "cnt", ["-", H]]), ("select-index", lambda H: ["=", "cnt", ["select", "arr", H]]),
+              ("to_real", lambda H: ["=", "rat", ["to_real", H]]), ("store-value", lambda H: ["=", "arr", ["store", "arr", "cnt", H]])]
+    elif T == "B":
+        c += [("not", lambda H: ["not", H]), ("and", lambda H: ["and", "flag", H]), ("=>", lambda H: ["=>", H, "flag"]),
+              ("ite-condition", lambda H: ["ite", H, "flag", "flag"]), ("xor", lambda H: ["xor", H, "flag"]),
+              ("or-last", lambda H: ["or", "flag", "flag", H]), ("whole-term", lambda H: H)]
+    elif T == "R":
+        c += [("<", lambda H: ["<", "rat", H]), ("/", lambda H: ["=", "rat", ["/", "rat", H]]),
+              ("*", lambda H: ["=", "rat", ["*", "rat", H]]), ("-", lambda H: ["=", "rat", ["-", H, "rat"]])]
+    elif T == "V":
+        c += [("bvult", lambda H: ["bvult", "vec", H]), ("bvadd", lambda H: ["=", "vec", ["bvadd", "vec", H]]),
+              ("bvnot", lambda H: ["=", "vec", ["bvnot", H]]),
+              ("extract", lambda H: ["=", [["_", "extract", "1", "0"], H], [["_", "extract", "1", "0"], "vec"]]),
+              ("concat", lambda H: ["=", ["concat", "vec", H], ["concat", "vec", "vec"]]),
+              ("zero_extend", lambda H: ["=", [["_", "zero_extend", "2"], H], [["_", "zero_extend", "2"], "vec"]]),
+              ("bv2nat", lambda H: ["=", "cnt", ["bv2nat", H]])]
+    elif T == "A":
+        c += [("select-array", lambda H: ["=", "cnt", ["select", H, "cnt"]]),
+              ("store-array", lambda H: ["=", "arr", ["store", H, "cnt", "cnt"]])]
+    return c
+
+
+def undeclared_case(rng, gen):
+    """-> (position tag, text with an undeclared name, the same text with a declared name of the right sort in its place | None)"""
+    r = rng
+    T = r.choice(["S", "S", "S", "I", "I", "B", "B", "R", "V", "A"])
+    s, so = OWN_SYMBOL[T], OWN_SORT[T]
+    pre = [c[0] for c in gen.cmds]
+    pre += [["declare-fun", OWN_SYMBOL[k], [], OWN_SORT[k]] for k in "SIBRVA"]
+    pre += [["declare-fun", "f" + T, [so], "Bool"], ["define-fun", "d" + T, [["a!", so]], "Bool", ["=", "a!", s]]]
+    k = r.random()
+    if k < 0.08:
+        # names whose scope has ended
+        which = r.choice(["after-let-scope", "after-quantifier-scope", "after-define-fun-parameters", "after-let-in-next-command"])
+        if which == "after-let-scope":
+            bad = [["assert", ["and", ["let", [["l!", "flag"]], "l!"], "l!"]]]
+        elif which == "after-quantifier-scope":
+            bad = [["assert", ["and", ["forall", [["q!", "Int"]], ["<", "q!", "cnt"]], ["<", "q!", "cnt"]]]]
+        elif which == "after-define-fun-parameters":
+            bad = [["define-fun", "dd2!", [["pa2!", "Int"]], "Int", "pa2!"], ["assert", ["<", "pa2!", "cnt"]]]
+        else:
+            bad = [["assert", ["let", [["l!", "flag"]], "l!"]], ["assert", ["=", "l!", "flag"]]]
+        return which, render_script(r, pre + bad, fancy=False), None
+    N = r.choice(UNDECLARED_NAMES)
+    hform, hole = r.choice([
+        ("bare", lambda X: X), ("bare", lambda X: X), ("bare", lambda X: X),
+        ("named", lambda X: ["!", X, ":named", "nmU!"]), ("named", lambda X: ["!", X, ":named", "nmU!"]),
+        ("weight", lambda X: ["!", X, ":weight", "2"]), ("named+weight", lambda X: ["!", X, ":named", "nmU!", ":weight", "1"]),
+        ("pattern", lambda X: ["!", X, ":pattern", [s]]), ("no-pattern", lambda X: ["!", X, ":no-pattern", s]),
+        ("nested-annotation", lambda X: ["!", ["!", X, ":named", "nmA!"], ":named", "nmB!"]),
+        ("user-attribute", lambda X: ["!", X, ":origin", "here"])])
+    cs = _undeclared_contexts(T)
+    ctag, ctx_ = r.choice(cs)
+    cmds_b = [("assert", lambda t: [["assert", t]]), ("assert", lambda t: [["assert", t]]),
+              ("assert-annotated", lambda t: [["assert", ["!", t, ":named", "nmC!"]]]),
+              ("define-fun", lambda t: [["define-fun", "dd!", [], "Bool", t]]),
+              ("define-fun-with-parameters", lambda t: [["define-fun", "dd!", [["pa!", so]], "Bool", t]]),
+              ("get-value", lambda t: [["get-value", [t]]]), ("get-value-second", lambda t: [["get-value", ["flag", t]]]),
+              ("assert-soft", lambda t: [["assert-soft", t]]),
+              ("assert-soft-weighted", lambda t: [["assert-soft", t, ":weight", "2", ":id", "goal"]]),
+              ("check-sat-assuming", lambda t: [["check-sat-assuming", [t]]]),
+              ("then-used-bare", lambda t: [["assert", t], ["assert", t]])]
+    cmds_t = []
+    if T in "IRV":
+        grow = (lambda H: ["bvadd", s, H]) if T == "V" else (lambda H: ["+", s, H])
+        cmds_t = [("maximize", lambda H: [["maximize", grow(H)]]), ("minimize", lambda H: [["minimize", grow(H), ":id", "goal"]]),
+                  ("minmax", lambda H: [["minmax", grow(H), s]]), ("maxmin", lambda H: [["maxmin", s, grow(H)]]),
+                  ("define-fun-of-sort", lambda H: [["define-fun", "dd!", [], so, grow(H)]])]
+    elif T == "S":
+        cmds_t = [("define-fun-of-sort", lambda H: [["define-fun", "dd!", [], so, ["str.++", s, H]]])]
+    if hform != "bare":
+        # an annotated name as the whole term of a definition
+        cmds_t.append(("define-fun-of-sort-whole", lambda H: [["define-fun", "dd!", [], so, H]]))
+        cmds_t.append(("define-fun-of-sort-whole-with-parameters", lambda H: [["define-fun", "dd!", [["pa!", "Int"]], so, H]]))
+    if cmds_t and r.random() < 0.25:
+        wtag, wrap = r.choice(cmds_t)
+        mk = lambda X: wrap(hole(X))
+        pos = "%s/%s/%s" % (wtag, hform, T)
+    else:
+        wtag, wrap = r.choice(cmds_b)
+        if ctag == "whole-term" and hform == "bare" and wtag not in ("assert", "assert-annotated", "then-used-bare"):
+            wtag, wrap = cmds_b[0]         # (a lone unknown name as a whole command argument is the known F15b)
+        mk = lambda X: wrap(ctx_(hole(X)))
+        pos = "%s/%s/%s/%s" % (wtag, ctag, hform, T)
+    ntok = N if _is_simple(N) and N not in ("String", "Int", "Bool") or r.random() < 0.5 and N in ("String", "Int", "Bool") \
+        else "|" + N + "|"
+    return pos, render_script(r, pre + mk(ntok), fancy=False), render_script(r, pre + mk(s), fancy=False)
+
+
+def run_undeclared(ctx, n):
+    for i in range(n):
+        if ctx.time_left() < 40:
+            break
+        for _ in range(8):
+            # (the script in front is made of forms the parser handles: the rejection is due to the undeclared name)
+            g = gen_script(ctx.rng, "strict")
+            if not g.may_reject:
+                break
+        else:
+            continue
+        pos, text, control = undeclared_case(ctx.rng, g)
+        if run_impl(render_script(ctx.rng, [c[0] for c in g.cmds], fancy=False))[0] == "err":
+            ctx.count("undeclared_prefix_rejected")
+            continue
+        K_TEXTS.append(("malformed-undeclared", text))
+        res = run_impl(text)
+        ctx.case("undeclared:" + text)
+        ctx.count("undeclared_" + pos.split("/")[0])
+        ctx.count("undeclared_form_" + (pos.split("/")[-2] if "/" in pos else "scope"))
+        if res[0] == "ok":
+            ctx.report_s({"oracle": "reject", "kind": "undeclared-symbol", "position": pos},
+                         "a script with an undeclared name (%s) is accepted" % pos, {"text": text, "kind": "undeclared-symbol"})
+        if control is not None:
+            K_TEXTS.append(("undeclared-control", control))
+            resc = run_impl(control)
+            ctx.case("undeclared-control:" + control)
+            if resc[0] == "err":
+                ctx.report_s({"oracle": "accept", "kind": "generated", "error": resc[1], "stream": "undeclared-control",
+                              "position": pos},
+                             "the same script with a declared name in place of the undeclared one is rejected: %s %s"
+                             % (resc[1], resc[2]), {"text": control, "error": "%s: %s" % (resc[1], resc[2])})
+            else:
+                ctx.count("undeclared_control_accepted")
+
+
+# simultaneous let: fixed witnesses with hand-written meanings (x, y, z : Int; p, q : Bool)
+LET_DECLS = "(declare-fun x () Int)(declare-fun y () Int)(declare-fun z () Int)(declare-fun p () Bool)(declare-fun q () Bool)"
+LET_WITNESSES = [
+    ("swap", "(assert (let ((x y) (y x)) (> x y)))", lambda m, x, y, z, p, q: m.LT(x, y)),
+    ("swap-bool", "(assert (let ((p q) (q (not p))) (and p q)))", lambda m, x, y, z, p, q: m.And(q, m.Not(p))),
+    ("uses-earlier", "(assert (let ((x (+ x 1)) (y (+ x 10))) (= y (+ x 9))))",
+     lambda m, x, y, z, p, q: m.Equals(m.Plus(x, m.Int(10)), m.Plus(m.Plus(x, m.Int(1)), m.Int(9)))),
+    ("rotation", "(assert (let ((x y) (y z) (z x)) (and (< x y) (< y z))))", lambda m, x, y, z, p, q: m.And(m.LT(y, z), m.LT(z, x))),
+    ("nested", "(assert (let ((x y)) (let ((x (- x z)) (y x)) (< (- x y) 0))))",
+     lambda m, x, y, z, p, q: m.LT(m.Minus(m.Minus(y, z), y), m.Int(0))),
+    ("in-quantifier", "(assert (forall ((x Int)) (let ((x y) (y x)) (> x y))))", lambda m, x, y, z, p, q: m.ForAll([x], m.LT(x, y))),
+    ("in-quantifier-2", "(assert (exists ((y Int)) (let ((y x) (z y)) (and (= y x) (< z y) (< z 0)))))",
+     lambda m, x, y, z, p, q: m.Exists([y], m.And(m.Equals(x, x), m.LT(y, x), m.LT(y, m.Int(0))))),
+    ("define-fun-parameters", "(define-fun f ((x Int) (y Int)) Bool (let ((x y) (y x)) (> x y)))(assert (f x (+ x 1)))",
+     lambda m, x, y, z, p, q: m.LT(x, m.Plus(x, m.Int(1)))),
+    ("define-fun-0", "(define-fun d () Int 7)(assert (let ((d x) (x d)) (= (- d x) (- x y))))",
+     lambda m, x, y, z, p, q: m.Equals(m.Minus(x, m.Int(7)), m.Minus(m.Int(7), y))),
+    ("three-uses-earlier", "(assert (let ((x (+ y 1)) (y (* 2 x)) (z (+ x y))) (= z (+ x y))))",
+     lambda m, x, y, z, p, q: m.Equals(m.Plus(x, y), m.Plus(m.Plus(y, m.Int(1)), m.Times(m.Int(2), x)))),
+]
+
+
+def run_let_witnesses(ctx, ig, lines, meta):
+    from pysmt.typing import INT, BOOL
+    for name, cmd, build in LET_WITNESSES:
+        text = LET_DECLS + cmd
+        K_TEXTS.append(("let-witness", text))
+        res = run_impl(text)
+        ctx.case("let-witness:" + text)
+        rep = {"text": text, "stream": "let-witness", "tags": [name], "may_reject": []}
+        if res[0] == "err":
+            ctx.report_s({"oracle": "accept", "kind": "generated", "error": res[1], "stream": "let-witness"},
+                         "a script made only of constructs handled today is rejected: %s %s" % (res[1], res[2]),
+                         dict(rep, error="%s: %s" % (res[1], res[2])))
+            continue
+        m = Environment().formula_manager
+        want = build(m, *([m.Symbol(n, INT) for n in "xyz"] + [m.Symbol(n, BOOL) for n in "pq"]))
+        idx = len(res[1].commands) - 1
+        got = res[1].commands[idx].args[0]
+        what = "assert#%d" % idx
+        STD_QUEUE.append((text, [(what, got)], rep, ig))
+        try:
+            lines.append(semantic.chk_equiv_line(want, got, ig.sample([want, got], n=8), check_fv=True))
+        except wire.OutOfFragment:
+            continue
+        meta.append(({"oracle": "meaning", "stream": "let-witness", "command": "assert"},
+                     dict(rep, command=what, intended=semantic.readable(want), returned=semantic.readable(got))))
+
+
 KNOWN_SHAPES = [
     # (id, text, what must happen)   -- deliberate witnesses of the known findings, reported with their signature
     ("F16", "(declare-fun x () Int)(assert (= x -3))", "tolerant-numeral", "-3"),
@@ -1873,9 +2515,24 @@ KNOWN_SHAPES = [
     ("F15b", "(declare-fun x () Int)(get-value (x foo))", "lone-unknown-name", "get-value"),
     ("F15b", "(maximize foo)", "lone-unknown-name", "maximize"),
     ("F15b", "(define-fun f () String foo)", "lone-unknown-name", "define-fun"),
+    ("F15b", "(minimize foo)", "lone-unknown-name", "minimize"),
+    ("F15b", "(declare-fun x () Int)(minmax foo x)", "lone-unknown-name", "minmax"),
+    ("F15b", "(declare-fun x () Int)(maxmin x foo)", "lone-unknown-name", "maxmin"),
+    ("F15b", "(assert-soft foo)", "lone-unknown-name", "assert-soft"),
+    ("F15b", "(declare-fun a () Bool)(assert-soft a :weight foo)", "lone-unknown-name", "assert-soft-weight"),
+    ("F15b", "(check-sat-assuming (foo))", "lone-unknown-name", "check-sat-assuming"),
+    ("F15b", "(declare-fun a () Bool)(check-allsat (a foo))", "lone-unknown-name", "check-allsat"),
+    # F15d: (as name sort) with an undeclared name introduces the symbol (the syntax of abstract values in solver models)
+    ("F15d", "(declare-fun m () String)(assert (= m (as mgs String)))", "undeclared-symbol", "as-qualified"),
+    ("F15d", "(declare-sort U 0)(declare-fun c () U)(assert (= c (as @val1 U)))", "undeclared-symbol", "as-qualified"),
+    # F13c: a let-bound name without a previous meaning is visible to the bindings that follow it
+    ("F13c", "(declare-fun m () Int)(assert (let ((l m) (k l)) (= k m)))", "let-binding-sees-earlier-binding", "let"),
     ("P01", "(declare-fun x () Int)(push 1)(declare-fun a () Int)(assert (= a x))(pop 1)(assert (= a x))",
      "use-after-pop", "declare-fun"),
     ("P01", "(declare-fun x () Int)(push 1)(define-fun a () Int 5)(pop 1)(assert (= a x))", "use-after-pop", "define-fun"),
+    # P12: a declared function applied to no argument is read as the bare function symbol (not a term)
+    ("P12", "(declare-fun f (Int) Int)(get-value ((f)))", "nullary-application", "get-value"),
+    ("P12", "(declare-fun f (Int) Int)(assert (let ((g (f))) true))", "nullary-application", "let"),
 ]
 
 
@@ -1922,6 +2579,22 @@ def run_f10_f17(ctx, ig, lines, meta):
     if res[0] == "ok":
         ctx.report_s({"oracle": "reject", "kind": "int-division-slash", "detail": "/"},
                      "`/` applied to Int terms accepted (read as integer division)", {"text": text})
+    # F15e: (as x Int) under a binder of x is the bound variable; the parser reads the global symbol of that name
+    for text, build in (("(declare-fun x () Int)(assert (let ((x 5)) (= (as x Int) 5)))", lambda m, x: m.Equals(m.Int(5), m.Int(5))),
+                        ("(declare-fun x () Int)(define-fun g ((x Int)) Bool (= (as x Int) 5))(assert (g 7))",
+                         lambda m, x: m.Equals(m.Int(7), m.Int(5)))):
+        res = run_impl(text)
+        ctx.case("known:" + text)
+        K_TEXTS.append(("known-as-qualified", text))
+        if res[0] == "ok":
+            from pysmt.typing import INT
+            m = E().formula_manager
+            want = build(m, m.Symbol("x", INT))
+            got = res[1].commands[-1].args[0]
+            lines.append(semantic.chk_equiv_line(want, got, ig.sample([want, got], n=6), check_fv=False))
+            meta.append(({"oracle": "meaning", "stream": "witness", "command": "assert", "shape": "as-qualified-bound-variable"},
+                         {"text": text, "command": "assert#%d" % (len(res[1].commands) - 1), "intended": semantic.readable(want),
+                          "returned": semantic.readable(got)}))
     # F16b: a quoted symbol that spells a literal is a symbol; the parser reads the literal as that symbol afterwards
     text = "(declare-fun |0| () Int)(declare-fun x () Int)(assert (= x 0))"
     res = run_impl(text)
@@ -1945,8 +2618,35 @@ def run(ctx):
     lines, meta = [], []
     del K_TEXTS[:]
     del STD_QUEUE[:]
+    import time as _time
+    marks = [("start", _time.time())]
+
+    def mark(name):
+        ctx.count("seconds_" + name, int(round(_time.time() - marks[-1][1])))
+        marks.append((name, _time.time()))
+    ctx.count("seconds_before_run", int(round(ctx.budget_s - ctx.time_left())))
     run_known_shapes(ctx)
     run_f10_f17(ctx, ig, lines, meta)
+    # the dedicated streams are small and run first: they are not cut when building the Lean side took most of the budget
+    run_let_witnesses(ctx, ig, lines, meta)
+    for i in range(160 if quick else 1500):
+        # simultaneous let: swaps, rotations, later bindings mentioning earlier-rebound names
+        if ctx.time_left() < (45 if quick else 400):
+            break
+        g = gen_script(ctx.rng, "strict", "build_simlet_script")
+        text = render_script(ctx.rng, [c[0] for c in g.cmds], fancy=ctx.rng.random() < 0.3)
+        check_script(ctx, g, text, ig, lines, meta, "let-sim", n_interps=6)
+    mark("let-sim")
+    for i in range(260 if quick else 2500):
+        # n-ary forms of chainable / left-assoc / right-assoc / pairwise operators: the standard's meaning, or a rejection
+        if ctx.time_left() < (45 if quick else 400):
+            break
+        g = gen_script(ctx.rng, "strict", "build_nary_script")
+        text = render_script(ctx.rng, [c[0] for c in g.cmds], fancy=ctx.rng.random() < 0.2)
+        check_script(ctx, g, text, ig, lines, meta, "nary", std_always=True, n_interps=8)
+    mark("nary")
+    run_undeclared(ctx, 220 if quick else 2500)
+    mark("undeclared")
     n = 700 if quick else 6000
     for i in range(n):
         if ctx.time_left() < (75 if quick else 700):
@@ -1954,11 +2654,17 @@ def run(ctx):
         g = gen_script(ctx.rng)
         text = render_script(ctx.rng, [c[0] for c in g.cmds], fancy=True)
         check_script(ctx, g, text, ig, lines, meta, "generated")
+    mark("generated")
     run_malformed(ctx, 250 if quick else 2500)
+    mark("malformed")
     run_corpus(ctx)
+    mark("corpus")
     finish_sem(ctx, lines, meta)
+    mark("sem-oracle")
     run_std_oracle(ctx)
+    mark("std-oracle")
     run_model(ctx, K_TEXTS)
+    mark("model")
 
 
 # ------------------------------------------------------------------------------------------
